@@ -15,10 +15,11 @@ class Show(ASTNode):
                  *args_, **kwargs):
         super().__init__(*args_, **kwargs)
 
+        category = category.upper()
         if category == 'SLAVE HOSTS':
             category = 'REPLICAS'
 
-        self.category = category.upper()
+        self.category = category
         self.modes = modes
         self.where = where
         self.from_table = from_table
@@ -67,19 +68,24 @@ class Show(ASTNode):
         in_str = self.table_to_str('IN', self.in_table)
 
         modes_str = f' {" ".join(self.modes)}' if self.modes else ''
-        like_str = f" LIKE '{self.like}'" if self.like else ""
+        like_str = ''
+        if self.like:
+            # the pattern is printed like any string constant (quotes escaped)
+            from mindsdb_sql.parser.ast.select.constant import Constant
+            like_str = f' LIKE {Constant(self.like).to_string()}'
         where_str = f' WHERE {str(self.where)}' if self.where else ''
+        clauses_str = f'{from_str}{in_str}{like_str}{where_str}'
 
-        # custom commands
-        if self.category in ('FUNCTION CODE', 'PROCEDURE CODE', 'ENGINE') or self.category.startswith('ENGINE '):
-            return f'SHOW {self.category} {self.name}'
-        elif self.category == 'REPLICA STATUS':
-            channel = ''
-            if self.name is not None:
-                channel = f' FOR CHANNEL {self.name}'
-            return f'SHOW {self.category} {channel}'
+        # custom commands: the clauses that the grammar accepts after them are printed too
+        if self.category == 'REPLICA STATUS':
+            channel = f' FOR CHANNEL {self.name}' if self.name is not None else ''
+            return f'SHOW {self.category}{channel}{clauses_str}'
+        if self.category == 'ENGINE' and self.name is not None and self.modes:
+            # SHOW ENGINE name STATUS | MUTEX
+            return f'SHOW {self.category} {self.name} {" ".join(self.modes)}{clauses_str}'
 
-        return f'SHOW{modes_str} {self.category}{from_str}{in_str}{like_str}{where_str}'
+        name_str = f' {self.name}' if self.name is not None else ''
+        return f'SHOW{modes_str} {self.category}{name_str}{clauses_str}'
 
 
 
